@@ -99,7 +99,7 @@ ANN_TEMPLATES = {
               "Parameters\n----------\na : {A}, default 1\n    desc"],
     "sphinx": [":param a: desc\n:type a: {A}", ":param {A} a: desc", ":returns: desc\n:rtype: {A}", ":raises {A}: desc", ":var v: desc\n:vartype v: {A}", ":ivar {A} v: desc", ":rtype: {A}", ":type a: {A}"],
 }
-PARENTS = ["module-fileless", "function-fileless", "class-fileless", "none", "module", "class", "function", "init", "property", "function-iter", "function-tuple", "function-gen-tuples", "function-gen-short", "class-init-unresolvable", "class-init-unresolvable-inherited"]
+PARENTS = ["module-fileless", "function-fileless", "class-fileless", "init-parentless", "none", "module", "class", "function", "init", "property", "function-iter", "function-tuple", "function-gen-tuples", "function-gen-short", "class-init-unresolvable", "class-init-unresolvable-inherited"]
 
 # plan: list of ((tokens over the full alphabet, tokens after a header), option deviations); later entries only add what earlier ones lack
 _PLAN = {"quick": [((2, 2), 1)], "thorough": [((3, 3), 0), ((3, 2), 1), ((2, 2), 2)]}
@@ -185,6 +185,8 @@ def _setup():
     inmem_k = griffe.Class("K")
     inmem.set_member("K", inmem_k)
     parents.update({"module-fileless": inmem, "function-fileless": inmem_f, "class-fileless": inmem_k})
+    # a function called __init__ that belongs to nothing (an object built by hand, as extensions and tests do)
+    parents["init-parentless"] = griffe.Function("__init__", parameters=griffe.Parameters(griffe.Parameter("self"), griffe.Parameter("a", annotation="int")))
     defaults = {}
     for style, fn in (("google", google.parse_google), ("numpy", numpy.parse_numpy), ("sphinx", sphinx.parse_sphinx)):
         sig = inspect.signature(fn)
@@ -285,7 +287,7 @@ def run_shard(shard, tier):
             with sandbox.time_limit(20):
                 for pname, parent in env["parents"].items():
                     for opts in vectors:
-                        if opts and pname not in ("none", "function", "init", "property"):
+                        if opts and pname not in ("none", "function", "init", "property", "init-parentless"):
                             continue  # non-default options are exercised on the parents they can interact with
                         ds = g.Docstring(text, lineno=1, parent=parent)
                         value0, lines0 = ds.value, list(ds.lines)
@@ -328,9 +330,37 @@ def run_shard(shard, tier):
         acc.counters["parses"] += len(env["parents"]) + 4 * (len(vectors) - 1)
     if part == 0:
         _run_annotations(env, acc, style, tier)
+        _run_line_separators(env, acc, style)
     if env["mod"].as_json(full=False) != mod_json0:
         acc.violation(f"mutated/parent/{style}", f"{style}: the parent objects' JSON changed while parsing (shard {part})", {"style": style, "shard": part})
     return acc.result()
+
+
+LINE_SEPARATORS = ["\r\n", "\r", "\x0c", "\x0b", "\x1c", "\x85", "\u2028", "\u2029"]
+
+
+def _run_line_separators(env, acc, style):
+    """Prose containing characters that str.splitlines() treats as line ends but that are not "\n": no section syntax, so the text comes back as written."""
+    g = env["griffe"]
+    fn = env["fns"][style]
+    for sep in LINE_SEPARATORS:
+        for text in (f"First{sep}second.", f"Summary.\n\nBody one{sep}body two.\n", f"{sep}Lead."):
+            case = {"style": style, "text": text, "family": "line-separators"}
+            ds = g.Docstring(text, lineno=1, parent=None)
+            try:
+                sections = fn(ds)
+            except Exception as e:  # noqa: BLE001
+                acc.violation(f"raise/{type(e).__name__}@{style}/line-separators", f"{style} parser raised {e!r} on {text!r}", case, None, size=3)
+                continue
+            cleaned = inspect.cleandoc(text)
+            got = "\n\n".join(s.value for s in sections if s.kind.value == "text") if all(s.kind.value == "text" for s in sections) else None
+            # (Sphinx and Google may split the prose into several text sections at blank lines; joined back they are the cleaned text)
+            norm = lambda t: "\n".join(l.rstrip(" ") for l in t.split("\n")).strip("\n")  # noqa: E731
+            ok = got is not None and norm(got) == norm(cleaned)
+            acc.case(case, outcome=style + ":" + ("ok" if ok else "diff"), nontrivial=True)
+            acc.observe([s.kind.value for s in sections])
+            if not ok:
+                acc.violation(f"prose/{style}/line-separator/{sep.encode('unicode_escape').decode()}", f"{style}: prose {text!r} came back as {[(s.kind.value, s.value) for s in sections]!r}, the cleaned text is {cleaned!r}", case, None, size=3)
 
 
 def _run_annotations(env, acc, style, tier):
@@ -347,7 +377,7 @@ def _run_annotations(env, acc, style, tier):
                     with sandbox.time_limit(20):
                         for pname, parent in env["parents"].items():
                             for opts in vectors:
-                                if opts and pname not in ("none", "function", "function-fileless", "property"):
+                                if opts and pname not in ("none", "function", "function-fileless", "property", "init-parentless"):
                                     continue
                                 case = {"style": style, "text": text, "parent": pname, "options": opts}
                                 ds = g.Docstring(text, lineno=1, parent=parent)
